@@ -125,6 +125,14 @@ class G:
                     lo, hi = 0, (1 << t.bf) - 1
             v = d(st.sampled_from([lo, hi, 0, 1, hi // 2, lo // 2])) if d(st.booleans()) else d(st.integers(lo, hi))
             v = max(lo, min(hi, v))
+            if d(st.integers(0, 9)) == 0:
+                # a floating constant converted by the initialisation (C11 6.3.1.4, and 6.3.1.2 for _Bool: any non-zero
+                # value, however small or large, gives 1)
+                self.labels.add("float-to-int-init")
+                if n == "_Bool":
+                    return d(st.sampled_from(["0.5", "0.25f", "-3.5", "1e30", "0.0", "-0.0", "2.0", "1e-300", "-0.75", "(1.0/3)", "0x1p-60"]))
+                if abs(v) < (1 << 50):
+                    return "%s%d.%s" % ("-" if v < 0 else "", abs(v), d(st.sampled_from(["75", "5", "0", "999", "25f" if abs(v) < 1000 else "25"])))
             if v == -(1 << 63):
                 return "(-9223372036854775807L-1)"
             if v >= 1 << 63:
